@@ -2,7 +2,7 @@
 import re
 from ..framework import Case, run_impl_par
 
-LEAN_MODULES = ["Op2Proofs.Props.C15"]
+LEAN_MODULES = ["Op2Proofs.Props.C15", "Op2Proofs.Props.C15_Gen"]
 RULE = ("ALL update sequences up to a depth (T=2: 11, T=3: 7, T=4: 6, T=5: 5, T=6: 5; thorough: 12/8/7/6/6 and T=7,8) from the "
         "initial tree and from random prefixes, a digest of the tree after EVERY update inside one case (encoded bit string of "
         "every symbol + preorder shape through root/child/isLeaf/data); random, skewed, single-symbol, round-robin and sawtooth "
@@ -15,7 +15,10 @@ PROVED = ("invariant WF (structure: links/parents mutually inverse, children bel
           "hence for every history; root count = T + updates, so exactly 65535 - T updates are accepted and no 16-bit counter "
           "wraps; refusal of out-of-range symbols / full counter / out-of-range nodes returns the old tree; WF => full binary "
           "prefix code: encoder bits drive the decoder walk to the symbol's leaf, every node reachable from the root; the "
-          "LZHUF-style reference update equals the modelled update on every well-formed tree (so shapes agree on every history)")
+          "LZHUF-style reference update equals the modelled update on every well-formed tree (so shapes agree on every history); "
+          "C15_Gen (bodies regenerated from the clang AST on every run, Gen/Bits.lean): VerifyNodeIndexInBounds / VerifyNodeDataInBounds, "
+          "GetChildNode, IsLeaf, GetNodeData, GetRootNodeIndex and the constructor's arithmetic (node count 2T-1, root 2T-2, tables of "
+          "2T-1, 2T-1, 3T-1 entries) equal TA.child / isLeaf / nodeData / n / root / Sized for trees that fit 16 bits; vacuous on fallback")
 PARTIAL = ("the model keeps counts in N and indices unbounded; the bridge to unsigned short is the theorem that no count exceeds "
            "65535 within capacity and all indices are < 3T-1 <= 941; the executable driver freezes the function-level tables "
            "into arrays between updates (checked against the unfrozen run by huff.snapcheck cases)")
